@@ -134,6 +134,34 @@ fn random_walks(r: &mut Report, n: usize, len: usize, seed: u64) {
     }
 }
 
+/// all Map<u8, MVReg> states the generator reaches in `depth` steps over 2 replicas (deduplicated), pending removes included
+pub fn map_states(depth: usize) -> Vec<(MM, String)> {
+    fn go(reps: Vec<MM>, all: Vec<Op<u8, MVReg<u8, u8>, u8>>, desc: String, depth: usize, nv: u8, seen: &mut BTreeSet<String>, out: &mut Vec<(MM, String)>) {
+        for m in &reps { let key = format!("{:?}", m); if seen.insert(key) { out.push((m.clone(), desc.clone())); } }
+        if depth == 0 { return; }
+        for i in 0..reps.len() {
+            let actor = (i + 1) as u8;
+            for k in 0..2u8 {
+                let mut r2 = reps.clone(); let mut a2 = all.clone();
+                let ctx = r2[i].read_ctx().derive_add_ctx(actor);
+                let op = r2[i].update(k, ctx, |reg, c| reg.write(nv, c)); r2[i].apply(op.clone()); a2.push(op);
+                go(r2, a2, format!("{} r{}:up({})", desc, i, k), depth - 1, nv + 1, seen, out);
+                let mut r2 = reps.clone(); let mut a2 = all.clone();
+                let op = r2[i].rm(k, r2[i].get(&k).derive_rm_ctx()); r2[i].apply(op.clone()); a2.push(op);
+                go(r2, a2, format!("{} r{}:rm({})", desc, i, k), depth - 1, nv, seen, out);
+            }
+            for (j, op) in all.iter().enumerate() {
+                if let Op::Up { dot, .. } = op { if reps[i].read_ctx().add_clock.get(&dot.actor) + 1 < dot.counter { continue; } }
+                let mut r2 = reps.clone(); r2[i].apply(op.clone());
+                go(r2, all.clone(), format!("{} r{}<-op{}", desc, i, j), depth - 1, nv, seen, out);
+            }
+        }
+    }
+    let mut seen = BTreeSet::new(); let mut out = vec![];
+    go(vec![MM::new(), MM::new()], vec![], String::new(), depth, 1, &mut seen, &mut out);
+    out
+}
+
 pub fn standin_map_iters(r: &mut Report) {
     r.target = "Map::keys / values / iter: one item per present key with (map clock, entry clock)".into();
     r.bound = "all states reached by <= 3 steps over 2 replicas, keys {0,1}".into();
